@@ -1,17 +1,15 @@
-(* C12 bridge.
-   (a) the call-site facts regenerated from the source on this run (Sites.v) satisfy the
-       preconditions of the ordered-collection contract, and the anchored sites are all there;
-   (b) the ownership programs regenerated from the source on this run (Own.v) pass the aliasing
-       analysis for ALL branch conditions, loop counts and written contents, hence (Proofs.v) the
-       real shape of HampelFilter.transform, Imputer.transform, ... never writes a buffer of the
-       caller nor (apply-type methods) the estimator, and returns a new object. *)
+(* C12 bridge (a): the call-site facts regenerated from the source on this run (Sites.v) satisfy
+   the preconditions of the ordered-collection contract - n_jobs=None included: n_jobs is only
+   handed on to Parallel / check_n_jobs - and the anchored sites are all there.
+   (Bridge (b), the regenerated ownership programs, is C12/BridgeOwn.v.) *)
 From Coq Require Import ZArith List Bool Arith String.
-Require Import SkV.C12.Model SkV.C12.Sites SkV.C12.Own SkV.C12.Proofs.
+Require Import SkV.C12.Model SkV.C12.Sites SkV.C12.Proofs.
 Import ListNotations.
 
 (* every Parallel(...) call site of the scanned files: generator form, order-preserving binding of
    the delivered list, task resolved, no generator shared with the tasks, no global draws, task
-   generators built from seed values, no writes to shared objects, enclosing draws before dispatch *)
+   generators built from seed values, no writes to shared objects, enclosing draws before dispatch,
+   n_jobs only handed on (so n_jobs=None reaches Parallel / check_n_jobs instead of a comparison) *)
 Theorem all_sites_satisfy_contract : forallb site_ok sites = true.
 Proof. vm_compute. reflexivity. Qed.
 
@@ -21,7 +19,9 @@ Definition anchored_keys : list string := [
   "classification/interval_based/_tsf.py:predict_proba:_predict_proba";
   "classification/dictionary_based/_boss.py:_get_train_probs:_train_predict";
   "classification/dictionary_based/_boss.py:_individual_train_acc:_train_predict";
-  "classification/dictionary_based/_boss.py:predict:_test_nn"
+  "classification/dictionary_based/_boss.py:predict:_test_nn";
+  "classification/dictionary_based/_cboss.py:_get_train_probs:_train_predict";
+  "classification/dictionary_based/_cboss.py:_individual_train_acc:_train_predict"
 ]%string.
 
 (* the sites the property names are still Parallel call sites (nothing silently dropped), and the
@@ -40,90 +40,4 @@ Proof.
   intros s Hin A B next f tasks s0 sched sched' Hc Hc'.
   pose proof all_sites_satisfy_contract as Hall. rewrite forallb_forall in Hall.
   exact (proj1 (site_schedule_free A B s next f tasks s0 sched sched' (Hall s Hin) Hc Hc')).
-Qed.
-
-(* ---------------------------------------------------------------- (b) ownership programs *)
-
-Section Generated.
-  Variable cond : nat -> buf -> list buf -> bool.
-  Variable fn : nat -> buf -> list buf -> buf.
-  Variable cnt : nat -> buf -> list buf -> nat.
-
-  (* every regenerated method passes the analysis: apply-type methods with self_ok = false,
-     fit / update with self_ok = true *)
-  Theorem generated_methods_accepted :
-    forallb (fun p => is_safe (snd p) (fst p)) (combine (gen_methods cond fn cnt) gen_self_ok) = true.
-  Proof. vm_compute. reflexivity. Qed.
-
-  (* every regenerated apply-type method returns a new object on every path *)
-  Theorem generated_apply_methods_return_new_objects :
-    forallb (fun p => snd p || returns_fresh (fst p)) (combine (gen_methods cond fn cnt) gen_self_ok)
-    = true.
-  Proof. vm_compute. reflexivity. Qed.
-
-  (* the tables are aligned and the two anchored transformers are among them, in this order *)
-  Theorem generated_tables_aligned :
-    List.length (gen_methods cond fn cnt) = List.length gen_names /\
-    List.length gen_self_ok = List.length gen_names /\
-    nth_error gen_names 0 = Some "HampelFilter.transform"%string /\
-    nth_error gen_names 1 = Some "Imputer.transform"%string /\
-    nth_error (gen_methods cond fn cnt) 0 = Some (hampelfilter_transform cond fn cnt) /\
-    nth_error (gen_methods cond fn cnt) 1 = Some (imputer_transform cond fn cnt) /\
-    nth_error gen_self_ok 0 = Some false /\ nth_error gen_self_ok 1 = Some false.
-  Proof. vm_compute. repeat split; reflexivity. Qed.
-
-  Lemma imputer_accepted : is_safe false (imputer_transform cond fn cnt) = true.
-  Proof. vm_compute. reflexivity. Qed.
-
-  Lemma hampel_accepted : is_safe false (hampelfilter_transform cond fn cnt) = true.
-  Proof. vm_compute. reflexivity. Qed.
-
-  (* Imputer.transform as it is in /repo now - every method, Series or DataFrame, with or
-     without a `missing_values` placeholder, whatever is imputed: no buffer that existed before
-     the call changes (the caller's data, its index, anything else the caller holds, and the
-     estimator's own state, `forecaster` parameter included), and the result is a new object *)
-  Theorem imputer_transform_is_pure : forall e st0 caller,
-    e < List.length st0 -> caller < List.length st0 ->
-    (forall i, i < List.length st0 ->
-       get (fst (apply e (imputer_transform cond fn cnt) st0 caller)) i = get st0 i) /\
-    List.length st0 <= snd (apply e (imputer_transform cond fn cnt) st0 caller).
-  Proof.
-    intros e st0 c He Hc. split.
-    - intros i Hi. destruct (Nat.eq_dec i e) as [->|Hne].
-      + apply preserves_estimator_state; try assumption. apply imputer_accepted.
-      + apply (preserves_caller_buffers false); try assumption. apply imputer_accepted.
-    - apply returns_fresh_sound; try assumption. vm_compute. reflexivity.
-  Qed.
-
-  (* the same for HampelFilter.transform, including the in-place writes of _hampel_filter, which
-     the inlining shows to go through the copy *)
-  Theorem hampel_transform_is_pure : forall e st0 caller,
-    e < List.length st0 -> caller < List.length st0 ->
-    (forall i, i < List.length st0 ->
-       get (fst (apply e (hampelfilter_transform cond fn cnt) st0 caller)) i = get st0 i) /\
-    List.length st0 <= snd (apply e (hampelfilter_transform cond fn cnt) st0 caller).
-  Proof.
-    intros e st0 c He Hc. split.
-    - intros i Hi. destruct (Nat.eq_dec i e) as [->|Hne].
-      + apply preserves_estimator_state; try assumption. apply hampel_accepted.
-      + apply (preserves_caller_buffers false); try assumption. apply hampel_accepted.
-    - apply returns_fresh_sound; try assumption. vm_compute. reflexivity.
-  Qed.
-End Generated.
-
-(* every regenerated method (fit and update included) leaves the caller's buffers alone *)
-Theorem generated_methods_preserve_caller_data : forall cond fn cnt k m so,
-  nth_error (gen_methods cond fn cnt) k = Some m -> nth_error gen_self_ok k = Some so ->
-  forall e st0 caller, e < List.length st0 -> caller < List.length st0 ->
-  forall i, i < List.length st0 -> i <> e -> get (fst (apply e m st0 caller)) i = get st0 i.
-Proof.
-  intros cond fn cnt k m so Hm Hso.
-  assert (Hs : is_safe so m = true).
-  { pose proof (generated_methods_accepted cond fn cnt) as H. rewrite forallb_forall in H.
-    apply (H (m, so)). clear H.
-    revert k Hm Hso. generalize (gen_methods cond fn cnt) gen_self_ok.
-    induction l as [|x t IH]; intros [|y u] [|k] Hm Hso; cbn in *; try discriminate.
-    - injection Hm as ->. injection Hso as ->. left. reflexivity.
-    - right. eapply IH; eauto. }
-  intros. eapply preserves_caller_buffers; eauto.
 Qed.
